@@ -22,6 +22,7 @@ variable {α : Type}
 structure Params where
   m : Nat                 -- kll_constants::DEFAULT_M
   pow3 : List Nat         -- kll_helper.hpp powers_of_three[]
+  splitDepth : Nat        -- int_cap_aux: table used directly up to this depth (30)
   minK : Nat
   maxK : Nat
 deriving Repr
@@ -39,7 +40,7 @@ def intCapAuxAux (P : Params) (k depth : Nat) : Nat :=
 
 /-- `int_cap_aux` (depth ≤ 60; the code throws above) -/
 def intCapAux (P : Params) (k depth : Nat) : Nat :=
-  if depth ≤ 30 then intCapAuxAux P k depth
+  if depth ≤ P.splitDepth then intCapAuxAux P k depth
   else intCapAuxAux P (intCapAuxAux P k (depth / 2)) (depth - depth / 2)
 
 def capAtDepth (P : Params) (k depth : Nat) : Nat := max P.m (intCapAux P k depth)
